@@ -44,11 +44,13 @@ def threshold(leaf, atom, thr):
 
 
 class Script:
-    def __init__(self, rep, name):
+    def __init__(self, rep, name, array_versions=False):
         self.name = name
         self.loc = front.repo(DIR + name)
         main, subs = PF.load(DIR + name)
-        self.fo = PF.PFold(main, subs).run()
+        pf = PF.PFold(main, subs)
+        pf.array_versions = array_versions
+        self.fo = pf.run()
         self.conds = getattr(self.fo, "conds", {})
         rep.functions.add("%s (main program + %d subs, %d events)" % (name, len(subs), len(self.fo.events)))
 
@@ -606,14 +608,25 @@ def check_extrapolate(rep):
                   "table_extrapolate.pl: %s(x0, y0, m, x) = %s gives f(x0) - y0 = %s and f'(x0) - m = %s: the extrapolated branch does not continue the table at the anchor point" % (
                       name, str(f)[:160], at0, slope), loc, sample=(name == "extrapolate_linear"))
     rep.floor("R19.1", n, 4, "closed-form extrapolation functions in table_extrapolate.pl")
-    sc = Script(rep, "table_extrapolate.pl")
+    sc = Script(rep, "table_extrapolate.pl", array_versions=True)
     ro = roles(sc)
     X, Y = ro["x"], ro["y"]
+
+    def unver(v):
+        """the same expression with array versions removed"""
+        if not isinstance(v, sp.Basic):
+            return v
+        return v.replace(lambda x: isinstance(x, sp.Symbol) and re.match(r"^@\w+'\d+$", str(x)) is not None, lambda x: S(str(x).split("'")[0]))
+
+    def versions(v, arr):
+        return {str(x).split("'")[1] if "'" in str(x) else "0" for x in (v.free_symbols if isinstance(v, sp.Basic) else ()) if re.match(r"^@%s('\d+)?$" % re.escape(arr), str(x))}
     st = [e for e in sc.stores(Y) if str(getattr(e["value"], "func", "")).startswith("call_") and len(e["value"].args) in (4, 5)]
     ok, why = len(st) == 2 and ro["yout"] == Y, "expected the two extrapolation sweeps (left and right), found %d" % len(st)
     dirs = set()
     for e in st if ok else []:
         a0, a1, g, a3 = e["value"].args[:4]
+        vers = versions(a1, Y) | versions(g, Y)
+        a0, a1, g, a3 = unver(a0), unver(a1), unver(g), unver(a3)
         i = e["idx"][0]
         anchor = a0.args[1] if str(getattr(a0, "func", "")) == "elem" and str(a0.args[0]) == "@" + X else None
         good = anchor is not None and a1 == el(Y, anchor) and a3 == el(X, i)
@@ -631,6 +644,10 @@ def check_extrapolate(rep):
                 dq = (el(Y, p_) - el(Y, q_)) / (el(X, p_) - el(X, q_))
                 quot = quot or any(sp.simplify(sub_ - dq) == 0 for sub_ in _subterms(g))
             good = quot
+        if good and len(vers) != 1:
+            ok, why = False, ("the sweep at line %s mixes table values read before and after an earlier sweep changed the table (versions %s of @%s): e.g. the periodic continuation "
+                              "must end at the first point as extrapolated by the left sweep, not at the value it had in the input" % (e["line"], sorted(vers), Y))
+            break
         if not good:
             ok, why = False, "the sweep at line %s calls the extrapolation function with (%s, %s, %s, %s) over %s" % (e["line"], a0, a1, str(g)[:80], a3, tuple(map(str, b)) if b else "?")
             break
